@@ -815,12 +815,6 @@ def check_query(case, drv, ci, names, sn, Y, dov, adj, algo, fnd, tags, stats, p
     if kind in ("purity", "independence"):
         return bad("mutated-argument:query" if kind == "purity" else "result-independence:query", dict(d, detail=ir))
     if kind == "attr":
-        pa_ = {u for (u, w) in map(tuple, case["edges"]) if w in [v for v, _ in dov]}
-        if case.get("backend") == "torch" and st == "ok" and dov and ((adj is None and pa_) or adj) and "variables" in str(ir):
-            # torch backend: p_z.values[...] is a 0-d tensor, `factor * tensor` is not a scalar product
-            fnd.add("impl-raises:query-torch-backend-nonempty-adjustment-set", dict(d, error=ir), "torch-adjustment-scalar-product")
-            tags.append("query:torch-nonempty-adjustment-raises")
-            return None
         return bad("impl-raises:query", dict(d, error=ir))
     if kind == "value" and algo == "bp" and not connected(case) and not (st == "err"):
         tags.append("query:bp-refuses-disconnected-model")
